@@ -23,6 +23,7 @@ import (
 
 func RegisterAll() {
 	run.Register(&c01{})
+	run.Register(&c02{})
 }
 
 func hashStr(parts ...string) string {
